@@ -216,6 +216,13 @@ class XDataArray:
         used('XR-COPY-SHALLOW')
         return XDataArray(_var=self.variable.copy(deep), name=self.name, _coords=self._coords)
 
+    def astype(self, dtype, **kw):
+        used('XR-ASTYPE')         # element-wise numpy astype; dims, coordinates, name and attributes kept (keep_attrs defaults to True)
+        if set(kw) - {'copy'}:
+            raise Unsupported(f'DataArray.astype options {sorted(kw)}')
+        v = self.variable
+        return XDataArray(_var=Variable(v.dims, v.arr.astype(dtype), dict(v.attrs), dict(v.encoding)), name=self.name, _coords=self._coords)
+
     def transpose(self, *dims, **kw):
         used('XR-TRANSPOSE')
         if not dims:
@@ -275,17 +282,29 @@ class XDataArray:
                 raise Unsupported('where: condition and data differ in size (alignment)')
         src = me.arr
         masked_other = other is np.MASKED
+        out_dtype = src.dtype
+        promote = (not masked_other and src.dtype.kind in 'ib'
+                   and (getattr(other, '_is_float', False) or isinstance(other, (float, core.SReal))))
+        if promote:
+            # XR-WHERE-PROMOTE: an integer variable with a floating-point replacement value becomes float64 (numpy result_type)
+            used('XR-WHERE-PROMOTE')
+            out_dtype = np.FLOAT64
+            from .floats import to_sfloat
 
         def fn(i):
             c = truthy(cv.arr.fn(tuple(i[p] for p in pos)))
             if masked_other:
                 return src.fn(i)
+            if promote:
+                a, b = to_sfloat(np.to_float(src.fn(i))), to_sfloat(other)
+                from .floats import SFloat
+                return SFloat(s_ite(c, a.kind, b.kind), s_ite(c, a.val, b.val))
             return s_ite(c, src.fn(i), other)
         mfn = src.mask_fn
         if masked_other:
             old = src.mask_fn or (lambda i: False)
             mfn = lambda i: s_or(old(i), s_not(truthy(cv.arr.fn(tuple(i[p] for p in pos)))))
-        arr = NDArray(src.shape, fn, src.dtype, mfn)
+        arr = NDArray(src.shape, fn, out_dtype, mfn)
         arr.where_info = (src, cv, pos, other)
         return XDataArray(_var=Variable(me.dims, arr, dict(me.attrs), {}), name=self.name, _coords=self._coords)
 
@@ -761,8 +780,12 @@ class XDataset:
             ds._add(k, v, True)
         return ds
 
-    def merge(self, other, compat='no_conflicts', **kw):
+    def merge(self, other, compat='no_conflicts', join='outer', fill_value=None, **kw):
         used('XR-MERGE')
+        if compat == 'no_conflicts':
+            if kw:
+                raise Unsupported(f'merge options {sorted(kw)}')
+            return _merge_aligned(self, other, join, _Dtypes.NA if fill_value is None else fill_value)
         if compat != 'override':
             raise Unsupported(f'merge compat={compat!r}')
         ds = self._derive()
@@ -779,6 +802,101 @@ class XDataset:
         _store_file(path, self)
 
     __hash__ = None
+
+
+def _concrete_labels(ds, d):
+    v = ds._vars.get(d)
+    if v is None or v.dims != (d,) or not isinstance(v.arr.shape[0], int):
+        return None
+    labs = [v.arr.fn((q,)) for q in range(v.arr.shape[0])]
+    if not all(isinstance(x, int) and not isinstance(x, bool) for x in labs):
+        return None
+    if any(a >= b for a, b in zip(labs, labs[1:])):
+        return None
+    return labs
+
+
+def _reindex(var, d, positions, fill_value):
+    """the variable with dimension d rearranged: entry q along d is old entry positions[q], or the fill value where positions[q] < 0"""
+    ax = var.dims.index(d)
+    old = var.arr.frozen()
+    missing = any(p < 0 for p in positions)
+    dtype, fill = old.dtype, None
+    if missing:
+        if isinstance(fill_value, _NA):
+            dtype, fill = _Dtypes.maybe_promote(old.dtype)
+        else:
+            fill = fill_value
+    shape = old.shape[:ax] + (len(positions),) + old.shape[ax + 1:]
+
+    def at(i, q):
+        p = positions[q]
+        if p < 0:
+            return fill
+        v = old.fn(i[:ax] + (p,) + i[ax + 1:])
+        if missing and dtype is not old.dtype and old.dtype.kind == 'i' and dtype.kind == 'f':
+            from .numpy_ import to_float
+            return to_float(v)
+        return v
+
+    def fn(i):
+        q = i[ax]
+        if not positions:
+            return None         # an empty axis has no entries
+        if not is_sym(q):
+            return at(i, q)
+        out = at(i, len(positions) - 1)
+        for j in range(len(positions) - 2, -1, -1):
+            out = s_ite(mk_bool(zint(q) == j), at(i, j), out)
+        return out
+    if old.mask_fn is not None:
+        raise Unsupported('alignment of a masked array')
+    return Variable(var.dims, NDArray(shape, fn, dtype), dict(var.attrs), dict(var.encoding))
+
+
+def _merge_aligned(left, right, join, fill_value):
+    """XR-MERGE-ALIGN: Dataset.merge(other, join=inner|outer, fill_value=...) for two datasets whose shared dimensions carry integer index
+    coordinates in strictly increasing order.  inner: the labels present in both; outer: the labels present in either; both in increasing
+    order.  Every variable that uses the dimension is rearranged to the new labels; entries whose label the variable's own dataset lacks
+    hold the fill value (NA: NaN after promotion of the dtype).  Variables of the left come first; a name defined in both must be the
+    shared index coordinate.  Attributes of the left dataset are kept (combine_attrs='override')."""
+    used('XR-MERGE-ALIGN')
+    if join not in ('inner', 'outer'):
+        raise Unsupported(f'merge join={join!r}')
+    ls, rs = left._sizes(), right._sizes()
+    shared = [d for d in ls if d in rs]
+    for name in left._vars:
+        if name in right._vars and name not in shared:
+            raise Unsupported(f'merge: variable {name!r} defined in both datasets (conflict check not modelled)')
+    new_labels, pos_l, pos_r = {}, {}, {}
+    for d in shared:
+        L, R = _concrete_labels(left, d), _concrete_labels(right, d)
+        if L is None or R is None:
+            if d not in left._vars and d not in right._vars and (same(ls[d], rs[d]) or known_true(s_eq(ls[d], rs[d]))):
+                continue        # no index on either side: positions pair up
+            raise Unsupported(f'merge: dimension {d!r} without concrete increasing integer labels on both sides')
+        labs = [x for x in L if x in R] if join == 'inner' else sorted(set(L) | set(R))
+        new_labels[d] = labs
+        pos_l[d] = [L.index(x) if x in L else -1 for x in labs]
+        pos_r[d] = [R.index(x) if x in R else -1 for x in labs]
+    out = XDataset()
+    out.attrs = dict(left.attrs)
+    out.encoding = dict(left.encoding)
+    for src, pos in ((left, pos_l), (right, pos_r)):
+        for name, v in src._vars.items():
+            if name in out._vars:
+                continue
+            nv = v
+            for d in v.dims:
+                if d in new_labels:
+                    if name == d:
+                        nv = Variable((d,), asarray(list(new_labels[d])), dict(v.attrs), dict(v.encoding))
+                    else:
+                        nv = _reindex(nv, d, pos[d], fill_value)
+            out._vars[name] = nv
+            if name in src._coord_names:
+                out._coord_names.add(name)
+    return out
 
 
 def _path_key(path):
